@@ -1,9 +1,40 @@
 (* C16 -- tensor-product helpers compute exactly the documented Kronecker chains; Pauli index maps.
    This file contains only statements closed by [exact <lemma>] and their assumptions. *)
 From Coq Require Import ZArith List Arith Permutation.
-From FF Require Import Model.Tensor Model.PauliIdx Model.Tie.C16
-  Proofs.TensorIdx Proofs.TensorOrder Proofs.Tensor Proofs.PauliIdx.
+From FF Require Import Model.Tensor Model.PauliIdx Model.Tie.C16 Spec.Kron
+  Proofs.TensorIdx Proofs.TensorOrder Proofs.Tensor Proofs.TensorKron Proofs.PauliIdx.
 Import ListNotations.
+
+(* ---- util.tensor: the einsum '...ab,...cd->...acbd' + reshape of binary_tensor is the Kronecker product
+   of Spec/Kron.v, the Kronecker product is associative, and the binary-tree reduction (odd element
+   kept in front, pairs multiplied, repeated) equals the left-to-right chain -- for every rank r and
+   every list of well-formed rank-r factors (heterogeneous dimensions, no bound on the length). *)
+Theorem C16_binary_tensor_is_kron : forall r A B, wf r A -> wf r B -> binary_tensor r A B = Ok (kron2 A B).
+Proof. exact binary_tensor_kron2. Qed.
+Theorem C16_kron_assoc : forall r A B C, wf r A -> wf r B -> wf r C ->
+  kron2 (kron2 A B) C = kron2 A (kron2 B C).
+Proof. exact kron2_assoc. Qed.
+Theorem C16_tensor_is_kron_chain : forall r F Fs, Forall (wf r) (F :: Fs) ->
+  tensor r (F :: Fs) = Ok (kron_chain F Fs).
+Proof. exact tensor_is_kron_chain. Qed.
+Print Assumptions C16_tensor_is_kron_chain.
+(* entry (i_1..i_r) of the chain = product over the factors k of F_k at the k-th mixed-radix digits of
+   i_1, .., i_r with respect to the factor dimensions on the respective axis *)
+Theorem C16_kron_chain_entry : forall r L F idx, Forall (wf r) (F :: L) -> inb idx (shp (kron_chain F L)) ->
+  aget (kron_chain F L) idx = kron_entry r (F :: L) idx.
+Proof. exact kron_chain_entry. Qed.
+Print Assumptions C16_kron_chain_entry.
+Definition exA := mkArr [2; 1] [2; 3]%Z.
+Definition exB := mkArr [1; 3] [5; 7; 11]%Z.
+Definition exC := mkArr [2; 2] [1; 2; 3; 4]%Z.
+Example C16_tensor_example :
+  Forall (wf 2) [exA; exB; exC] /\
+  tensor 2 [exA; exB; exC] = Ok (kron_chain exA [exB; exC]) /\
+  aget (kron_chain exA [exB; exC]) [3; 4] = 99%Z.
+Proof.
+  repeat split; try reflexivity.
+  repeat constructor.
+Qed.
 
 (* ---- tensor_insert: order of the factors produced by the position loop (on arbitrary labels).
    chain_spec (combine normalised-positions labels) 0 orig = the original chain with every inserted
